@@ -242,6 +242,11 @@ class Interp:
                 scored = []
                 for c in cands:
                     score = sum(1 for s in segs if s.lower() in c.lower())
+                    # `Type::method`: the type shows up as receiver (first argument) or, for
+                    # constructors, as the return type of the definition
+                    f = self.fns[c]
+                    sig = (f.args[0][1] if f.args else "") + " -> " + (f.ret or "")
+                    score += sum(2 for s in segs if s and re.search(r"\b%s\b" % re.escape(s), sig))
                     scored.append((score, c))
                 scored.sort(reverse=True)
                 if len(scored) > 1 and scored[0][0] == scored[1][0]:
